@@ -46,14 +46,16 @@ def pytest_configure(config):
         cls = type(p)
         cache = cls.CLASS_LEVEL_CACHE
         state["events"].append({"ev": ev, "pos": pos.get(cls.__name__, 0), "cache": owner(cls), "mod": mid(f["module"]), "ndone": len(cache.done),
-                                "pending": sorted(mid(m) for m in cache.pending), "test": state["test"]})
+                                "pending": sorted(mid(m) for m in cache.pending), "test": state["test"],
+                                "elab": getattr(f["module"], "_elaborated", None) is not None})
     _verif.set_sink(sink)
     orig = E.Elaborator.elaborate
 
     def elaborate(self, top):
         is_default = [p.__name__ for p in self.passes] == default
         state["depth"] += 1
-        state["events"].append({"ev": "call_begin", "np": len(default), "kindof": kinds, "strict": is_default, "nested": state["depth"] > 1, "test": state["test"]})
+        state["events"].append({"ev": "call_begin", "np": len(default), "kindof": kinds, "strict": is_default, "nested": state["depth"] > 1, "test": state["test"],
+                                "caches": [owner(p) for p in self.passes]})
         raised = True
         try:
             r = orig(self, top)
@@ -76,7 +78,7 @@ def pytest_sessionfinish(session, exitstatus):
     with open(os.path.join(OUT, "events.ndjson"), "w") as fh:
         for k, e in enumerate(state["events"], 1):
             e["seq"] = k
-            for key, d in (("pos", 0), ("cache", ""), ("mod", ""), ("ndone", 0), ("pending", []), ("np", 0), ("kindof", []), ("raised", False), ("strict", True), ("nested", False)):
+            for key, d in (("pos", 0), ("cache", ""), ("mod", ""), ("ndone", 0), ("pending", []), ("np", 0), ("kindof", []), ("raised", False), ("strict", True), ("nested", False), ("caches", []), ("elab", False)):
                 e.setdefault(key, d)
             fh.write(json.dumps(e, separators=(",", ":")) + "\n")
     with open(os.path.join(OUT, "pkgs.json"), "w") as fh:
